@@ -12,7 +12,13 @@ real bytes; the real bytes travel in `meta` and are what the implementation side
   hist    : histories over one file: saves under 2-3 renderers, damage in between (truncation / bit flips of the
             file as it is at that moment, foreign pickles, empty, deleted), finally a restore;
             property: the labels of the last undamaged save of that renderer are all back
+  xr      : the xr package reading the file: real `\\externaldocument[prefix]{job}[url]`; observation = context.labels;
+            property: no exception escapes (every truncation point, bit flips, foreign pickles), nothing invented
+  xrrt    : persist, then xr: every saved label is there under prefix+label with its saved record (url option prepended)
   raw     : files whose loaded value has no shape in the model (aliasing, exotic keys, surrogates): property only
+Every real call happens while another, long-lived context of the same process holds labels of its own (a build script
+converting several documents): none of them may appear in what is saved or restored ("the same set": the third driver
+field lists the labels that may legitimately be present).
 `extra_checks` (document level): two real documents rendered with HTML5/XHTML in one directory; the second one
 \\ref's labels of the first; the .paux of the first is damaged in every class of way between runs.
 """
@@ -28,7 +34,10 @@ LEVEL_TEXT = ('Lean 4 theorems over a line-by-line model of Context.persist/rest
               'decodes to a dict whose section holds every current label), roundtrip / restored_attributes / roundtrip_same_set (every saved '
               'label is restored with every persisted attribute, for every previous file content), per_renderer_separation, history_total and '
               'history_roundtrip (any sequence of saves under any renderers with arbitrary damage in between), truncation_harmless, and '
-              'labels_survive (the statement in the vocabulary number/title/target). The attribute tables (refAttributes, remap, setters, '
+              'labels_survive (the statement in the vocabulary number/title/target), persist_invents_nothing / roundtrip_invents_nothing (the same '
+              'set: no label that the run did not save and the old file did not hold), and for the xr package (second reader of the file) '
+              'xr_unreadable_is_noop, xrR_roundtrip, xrR_invents_nothing, xr_roundtrip_partial with the kernel-checked counterexample '
+              'xr_mixes_renderers_counterexample (known finding). The attribute tables (refAttributes, remap, setters, '
               'read-only names) are regenerated from the live classes on every run; the model is tied to the code by differential execution '
               'on real files: every truncation point of every generated file, random 1-8 bit flips, foreign pickles of every value shape, '
               'empty/missing files and save/damage/restore histories across renderers. Template lookup of the restored node (\\ref -> href) '
@@ -461,27 +470,102 @@ def sandbox():
     return _sb[0]
 
 
+DECOYS = ['decoy:earlier-document', 'decoy:2']
+
+
+def decoy_context():
+    """another document processed earlier in the same process (a build script converting several documents): a long-lived
+    context that holds labels of its own.  Nothing of it may show up in what another context saves or restores."""
+    if 'decoy' not in _env:
+        _env['decoy'] = real_context()
+        Labelled, Rendered = _classes()
+        nodes = {}
+        for k in DECOYS:
+            n = Labelled()
+            n.ref, n.title, n.id, n.url = Rendered('99'), Rendered('Decoy'), k, 'decoy.html#' + k
+            nodes[k] = n
+        _env['decoy_nodes'] = nodes
+    c = _env['decoy']
+    for k, n in _env['decoy_nodes'].items():
+        c.persistentLabels[k] = n
+        c.labels[k] = n
+    return c
+
+
+def forget(ctx):
+    """per-case work stays bounded even when the code keeps label tables in state shared between contexts"""
+    for name in ('persistentLabels', 'labels', 'refs'):
+        try:
+            getattr(ctx, name).clear()
+        except Exception:
+            pass
+
+
 def real_persist(sb, r, src):
     """returns None or the exception"""
+    decoy_context()
     ctx = real_context()
     install_src(ctx, src)
-    with guarded():
-        try:
-            ctx.persist(sb.path, r)
-        except Exception as e:
-            return e
-    return None
+    try:
+        with guarded():
+            try:
+                ctx.persist(sb.path, r)
+            except Exception as e:
+                return e
+        return None
+    finally:
+        forget(ctx)
 
 
 def real_restore(sb, r):
     """returns (exception or None, labels dict of the fresh context)"""
+    decoy_context()
     ctx = real_context()
-    with guarded():
-        try:
-            ctx.restore(sb.path, r)
-        except Exception as e:
-            return e, ctx.labels
-    return None, ctx.labels
+    try:
+        with guarded():
+            try:
+                ctx.restore(sb.path, r)
+            except Exception as e:
+                return e, dict(ctx.labels)
+        return None, dict(ctx.labels)
+    finally:
+        forget(ctx)
+
+
+XR_PREFIXES = ['', '', 'P-', 'man:', 'a b']
+XR_URLS = [None, None, 'http://x.org/m', 'http://x.org/m/', 'sub/dir', '..']
+
+
+def effective_url(u):
+    return None if not u else u.rstrip('/') + '/'
+
+
+def real_xr(sb, pfx, url):
+    """`\\externaldocument[pfx]{job}[url]` of the xr package read by the real interpreter in the directory of the file;
+    returns (exception or None, context.labels)"""
+    from plasTeX.TeX import TeX
+    from plasTeX import TeXDocument
+    decoy_context()
+    doc = TeXDocument()
+    tex = TeX(doc)
+    cwd = os.getcwd()
+    os.chdir(sb.dir)
+    try:
+        with guarded():
+            try:
+                doc.context.loadPackage(tex, 'xr')
+                tex.input('\\externaldocument%s{job}%s' % ('[%s]' % pfx if pfx else '', '[%s]' % url if url else ''))
+                tex.parse()
+            except Exception as e:
+                return e, dict(doc.context.labels)
+        return None, dict(doc.context.labels)
+    finally:
+        os.chdir(cwd)
+        forget(doc.context)
+
+
+def xr_words(labels):
+    return shape(dict(labels))
 
 
 def labels_words(labels):
@@ -608,24 +692,54 @@ def meta_file(m):
 
 # ---------------------------------------------------------------- cases
 
-def mk_cases(streams, r, src, data, origin='gen', tag='', base=None):
-    """the cases of the given streams for one (renderer, label set, file content)"""
+def mk_cases(streams, r, src, data, origin='gen', tag='', base=None, xr=None):
+    """the cases of the given streams for one (renderer, label set, file content); xr = (prefix, url option) for the xr streams"""
+    pfx, url = xr if xr is not None else ('', None)
     try:
         fw = file_words(data)
         rw = cps(r)
         sw = src_words(src) if src is not None else None
+        xw = 'p%s %s' % (cps(pfx), cps(effective_url(url)) if url else '-')
     except Exotic as e:
-        return [Case('raw', 'x ' + tag, {'op': s, 'r': r, 'src': src_json(src) if src is not None else None, 'file': b64(data)}, origin)
+        return [Case('raw', 'x ' + tag, {'op': s, 'r': r, 'src': src_json(src) if src is not None else None, 'file': b64(data),
+                                         'pfx': pfx, 'url': url}, origin)
                 for s in streams]
     out = []
     for s in streams:
         meta = {'r': r, 'file': b64(data), 'tag': tag} if base is None else {'r': r, 'file': base[0], 'cut': base[1], 'tag': tag}
+        if s in ('xr', 'xrrt'):
+            meta['pfx'], meta['url'] = pfx, url
         if s in ('persist', 'rt'):
             meta['src'] = src_json(src)
             out.append(Case(s, '%s %s %s' % (rw, sw, fw), meta, origin))
+        elif s == 'xrrt':
+            meta['src'] = src_json(src)
+            out.append(Case(s, '%s %s %s %s' % (rw, xw, sw, fw), meta, origin))
+        elif s == 'xr':
+            out.append(Case(s, '%s %s' % (xw, fw), meta, origin))
         else:
             out.append(Case(s, '%s %s' % (rw, fw), meta, origin))
     return out
+
+
+def gen_xr(rng):
+    return (rng.choice(XR_PREFIXES), rng.choice(XR_URLS))
+
+
+def other_sections_mention(data, r, src):
+    """the file has a section of another renderer that holds one of the labels about to be saved (xr reads the sections of
+    all renderers in file order: known finding `xr-mixes-renderers`, reached only through its witness)"""
+    if not data:
+        return False
+    try:
+        with guarded():
+            v = pickle.loads(data)
+    except BaseException:
+        return False
+    if not isinstance(v, dict):
+        return False
+    ks = {k for k, _ in src}
+    return any(k != r and isinstance(sec, dict) and any(l in ks for l in sec if isinstance(l, str)) for k, sec in v.items())
 
 
 def gen_history(rng):
@@ -680,40 +794,53 @@ def gen_history(rng):
 def generate(ctx):
     rng = ctx.rng
     quick = ctx.tier == 'quick'
-    nbase = 14 if quick else 50
+    nbase = 12 if quick else 50
     nflip = 60 if quick else 150
     nforeign = 700 if quick else 4000
     nhist = 250 if quick else 1200
+    def with_xrrt(streams, r, src, data):
+        return streams + (['xrrt'] if not other_sections_mention(data, r, src) else [])
+
     # clean round trips on missing / empty files: many label sets
     for _ in range(300 if quick else 2000):
         r = rng.choice(RENDERERS)
         src = gen_src(rng)
-        yield from mk_cases(['persist', 'rt'], r, src, rng.choice([None, None, b'']))
+        yield from mk_cases(['persist', 'rt', 'xrrt'], r, src, rng.choice([None, None, b'']), xr=gen_xr(rng))
     for _ in range(nbase):
         data, saves = base_file(rng)
         ctx.count('base-file-bytes', len(data))
         r0 = saves[-1][0]
         others = [r for r in RENDERERS[:2] if r != r0] or [RENDERERS[1]]
         src = gen_src(rng, 3, 0.05)
-        # the intact file: restore under each renderer, save again under the same and under another renderer
+        # the intact file: restore under each renderer, save again under the same and under another renderer, read it with xr
         for r in [r0] + others:
-            yield from mk_cases(['restore', 'persist', 'rt'], r, gen_src(rng, 3, 0.1), data, tag='intact')
+            s2 = gen_src(rng, 3, 0.1)
+            yield from mk_cases(with_xrrt(['restore', 'persist', 'rt', 'xr'], r, s2, data), r, s2, data, tag='intact', xr=gen_xr(rng))
         # EVERY truncation point (complete for this file)
         shared = b64(data)
+        xr0 = gen_xr(rng)
         for i, cut in enumerate(truncations(data)):
-            yield from mk_cases(['restore', 'rt'], r0, src, cut, tag='cut@%d' % i, base=(shared, i))
+            yield from mk_cases(['restore', 'rt', 'xr'], r0, src, cut, tag='cut@%d' % i, base=(shared, i), xr=xr0)
         ctx.count('truncation-points', len(data))
         # random 1-8 bit flips
         for j in range(nflip):
             bad = flip(rng, data, 1 if j % 2 == 0 else None)
             r = r0 if rng.random() < 0.8 else rng.choice(RENDERERS)
-            yield from mk_cases(['restore', 'rt'] + (['persist'] if j % 4 == 0 else []), r, src if j % 3 else gen_src(rng, 3, 0.1), bad, tag='flip')
+            s2 = src if j % 3 else gen_src(rng, 3, 0.1)
+            streams = ['restore', 'rt', 'xr'] + (['persist'] if j % 4 == 0 else [])
+            if j % 3 == 1:
+                streams = with_xrrt(streams, r, s2, bad)
+            yield from mk_cases(streams, r, s2, bad, tag='flip', xr=gen_xr(rng))
     # foreign pickles of every shape, non-pickles, empty
-    for _ in range(nforeign):
+    for j in range(nforeign):
         r = rng.choice(RENDERERS[:2]) if rng.random() < 0.85 else rng.choice(RENDERERS)
-        yield from mk_cases(['restore', 'persist', 'rt'], r, gen_src(rng, 3, 0.1), gen_foreign(rng), tag='foreign')
+        s2, data = gen_src(rng, 3, 0.1), gen_foreign(rng)
+        streams = ['restore', 'persist', 'rt', 'xr']
+        if j % 2:
+            streams = with_xrrt(streams, r, s2, data)
+        yield from mk_cases(streams, r, s2, data, tag='foreign', xr=gen_xr(rng))
     for g in GARBAGE:
-        yield from mk_cases(['restore', 'persist', 'rt'], 'HTML5', gen_src(rng, 2, 0.0), g, tag='garbage')
+        yield from mk_cases(['restore', 'persist', 'rt', 'xr', 'xrrt'], 'HTML5', gen_src(rng, 2, 0.0), g, tag='garbage', xr=gen_xr(rng))
     for _ in range(nhist):
         yield from gen_history(rng)
 
@@ -735,6 +862,12 @@ def corpus():
     out += mk_cases(['rt', 'restore'], 'HTML5', src, _plain({'HTML5': {'x': {'id': ''}, 'b': {'ref': '2', 'macroName': 5}}}), 'corpus', 'D14')
     out += mk_cases(['restore', 'rt'], 'HTML5', src, b'', 'corpus', 'empty')
     out += mk_cases(['restore', 'rt'], 'XHTML', src, _plain({'HTML5': {'a': {'ref': '9'}}}), 'corpus', 'other-renderer')
+    # D29: xr on files that do not have the saved layout
+    for v in (5, [1], None, {'HTML5': 5}, {'HTML5': {'a': 5}}, {'HTML5': {5: {'url': 'x'}}}):
+        out += mk_cases(['xr'], 'HTML5', None, _plain(v), 'corpus', 'D29')
+    for v in ({'HTML5': {'a': {'ref': '1'}}}, {'HTML5': {'a': {'url': 5}, 'b': {'url': 'b.html'}}}):
+        out += mk_cases(['xr'], 'HTML5', None, _plain(v), 'corpus', 'D29', xr=('P-', 'http://x.org/m'))
+    out += mk_cases(['xrrt'], 'HTML5', src, _plain({'HTML5': {'x': 5}, 'XHTML': 7}), 'corpus', 'D29', xr=('P-', 'http://x.org/m/'))
     import glob
     from framework import VERIF
     for f in sorted(glob.glob(os.path.join(VERIF, 'corpus', ID, '*.json'))):
@@ -784,12 +917,18 @@ def impl(case, aux):
         if stream == 'restore':
             e, labels = real_restore(sb, m['r'])
             return canon_exc(e) if e is not None else 'ok ' + labels_words(labels)
+        if stream == 'xr':
+            e, labels = real_xr(sb, m.get('pfx', ''), m.get('url'))
+            return canon_exc(e) if e is not None else 'ok ' + xr_words(labels)
         src = src_unjson(m['src'])
         e = real_persist(sb, m['r'], src)
         if e is not None:
             return canon_exc(e)
         if stream == 'persist':
             return saved_words(sb.get())
+        if stream == 'xrrt':
+            e, labels = real_xr(sb, m.get('pfx', ''), m.get('url'))
+            return canon_exc(e) if e is not None else 'ok ' + xr_words(labels)
         e, labels = real_restore(sb, m['r'])
         return canon_exc(e) if e is not None else 'ok ' + labels_words(labels)
     except Exotic as e:
@@ -809,35 +948,58 @@ def contains(have, want):
     return True
 
 
-def prop_holds(stream, impl_obs, spec, r):
+def allowed_keys(aux):
+    """third driver field: the labels that may be present (saved by a run of the case, or entries of the old file)"""
+    if not aux or aux[0] in ('', '*'):
+        return None
+    out = set()
+    if aux[0] == 'none':
+        return out
+    for kw in aux[0].split():
+        out.add(None if kw == 'kN' else (uncps(kw[2:]) if kw[1] == 's' else ('int', int(kw[2:]))))
+    return out
+
+
+def prop_holds(stream, impl_obs, spec, r, allowed=None):
+    """returns '' when the property holds on this observation, else what is wrong"""
     if not impl_obs.startswith('ok'):
-        return False                                  # an exception escaped
-    if spec in ('-', '') or impl_obs == 'ok exotic':
-        return True
-    want = words_value(spec)
+        return 'exception escaped'
+    if impl_obs == 'ok exotic':
+        return ''
     body = impl_obs[3:]
     if body in ('M', 'U'):
-        return False                                  # the re-saved file is missing / does not load
+        return 'the re-saved file is missing or does not load' if spec not in ('total',) else ''
     have = words_value(body)
+    if allowed is not None:
+        present = have.get(r) if stream == 'persist' and isinstance(have, dict) else have
+        if isinstance(present, dict):
+            extra = [k for k in present if k not in allowed]
+            if extra:
+                return 'labels are present that no run of this history saved and the old file did not hold: %r' % (extra[:4],)
+    if spec in ('-', '', 'total'):
+        return ''
+    want = words_value(spec)
     if stream == 'persist':
         if not want:
-            return isinstance(have, dict)             # nothing to save: the file only has to load
-        return isinstance(have, dict) and isinstance(have.get(r), dict) and contains(have[r], want)
-    return contains(have, want)
+            return '' if isinstance(have, dict) else 'the re-saved file is not a dictionary'
+        ok = isinstance(have, dict) and isinstance(have.get(r), dict) and contains(have[r], want)
+    else:
+        ok = contains(have, want)
+    return '' if ok else 'saved labels are not all there with their attributes'
 
 
 def judge(o):
     s = o.case.stream
     if s == 'raw':
         o.corr_ok = True
-        o.prop_ok = o.impl.startswith('ok')
+        o.prop_ok = o.impl.startswith('ok') and cps('decoy:') not in o.impl
         if o.prop_ok and o.case.meta.get('op') in ('rt', 'persist') and o.impl != 'ok exotic':
             o.prop_ok = raw_complete(o)
         return
     o.corr_ok = (o.impl == o.model)
-    o.prop_ok = prop_holds(s, o.impl, o.spec, o.case.meta['r'])
-    if not o.prop_ok:
-        o.note = 'exception escaped' if not o.impl.startswith('ok') else 'saved labels are not all there with their attributes'
+    why = prop_holds(s, o.impl, o.spec, o.case.meta['r'], allowed_keys(o.aux))
+    o.prop_ok = not why
+    o.note = why
 
 
 def raw_complete(o):
@@ -857,34 +1019,42 @@ def raw_complete(o):
 # ---------------------------------------------------------------- shrinking and search
 
 def _variants(case):
-    """smaller cases: fewer labels, fewer attributes, fewer ops"""
+    """smaller cases: fewer labels, fewer attributes, smaller old file"""
     m = case.meta
     out = []
-    if case.stream in ('persist', 'rt'):
+    xr = (m.get('pfx', ''), m.get('url'))
+    if case.stream in ('persist', 'rt', 'xrrt'):
         src = src_unjson(m['src'])
         data = meta_file(m)
+        if data:
+            out += mk_cases([case.stream], m['r'], src, None, 'shrink', xr=xr)
+            out += mk_cases([case.stream], m['r'], src, b'', 'shrink', xr=xr)
+        if case.stream == 'xrrt' and (xr[0] or xr[1]):
+            out += mk_cases([case.stream], m['r'], src, data, 'shrink', xr=('', None))
         for i in range(len(src)):
-            out += mk_cases([case.stream], m['r'], src[:i] + src[i + 1:], data, 'shrink')
+            out += mk_cases([case.stream], m['r'], src[:i] + src[i + 1:], data, 'shrink', xr=xr)
         for i, (k, node) in enumerate(src):
             for a in list(node):
                 n2 = {x: y for x, y in node.items() if x != a}
-                out += mk_cases([case.stream], m['r'], src[:i] + [(k, n2)] + src[i + 1:], data, 'shrink')
+                out += mk_cases([case.stream], m['r'], src[:i] + [(k, n2)] + src[i + 1:], data, 'shrink', xr=xr)
         if data:
             try:
                 with guarded():
                     v = pickle.loads(data)
                 for sm in _smaller_values(v):
-                    out += mk_cases([case.stream], m['r'], src, pickle.dumps(sm), 'shrink')
+                    out += mk_cases([case.stream], m['r'], src, pickle.dumps(sm), 'shrink', xr=xr)
             except BaseException:
                 pass
-    elif case.stream == 'restore':
+    elif case.stream in ('restore', 'xr'):
         data = meta_file(m)
+        if case.stream == 'xr' and (xr[0] or xr[1]):
+            out += mk_cases(['xr'], m['r'], None, data, 'shrink', xr=('', None))
         if data:
             try:
                 with guarded():
                     v = pickle.loads(data)
                 for sm in _smaller_values(v):
-                    out += mk_cases(['restore'], m['r'], None, pickle.dumps(sm), 'shrink')
+                    out += mk_cases([case.stream], m['r'], None, pickle.dumps(sm), 'shrink', xr=xr)
             except BaseException:
                 pass
     return [c for c in out if c.stream == case.stream]
@@ -995,8 +1165,13 @@ def doc_scenario(sc):
             elif kind == 'equation': body.append('\\begin{equation}x=1\\label{%s}\\end{equation}' % lab)
             else: body.append('\\begin{figure}\\caption{%s}\\label{%s}\\end{figure}' % (title, lab))
         open(os.path.join(d, A + '.tex'), 'w').write('\\documentclass{article}\n\\begin{document}\n%s\n\\end{document}\n' % '\n'.join(body))
-        open(os.path.join(d, B + '.tex'), 'w').write('\\documentclass{article}\n\\begin{document}\n\\section{Other}\n%s\n\\end{document}\n' %
-                                                  '\n'.join('R(\\ref{%s})' % lab for _, lab, _ in sc['labels']))
+        # B has a label of its own and refers to every label of A: through the .paux files of the directory (Compile.parse),
+        # or, when sc['xr'], through the xr package (\\externaldocument[X-]{A}, labels prefixed)
+        OWN = 'own:b'
+        xr = bool(sc.get('xr'))
+        open(os.path.join(d, B + '.tex'), 'w').write('\\documentclass{article}\n%s\\begin{document}\n\\section{Other}\\label{%s}\n%s\n\\end{document}\n' % (
+            '\\usepackage{xr}\n\\externaldocument[X-]{%s}\n' % A if xr else '', OWN,
+            '\n'.join('R(\\ref{%s%s})' % ('X-' if xr else '', lab) for _, lab, _ in sc['labels'])))
         paux = os.path.join(d, A + '.paux')
         labs = [lab for _, lab, _ in sc['labels']]
 
@@ -1014,10 +1189,23 @@ def doc_scenario(sc):
                     fails.append('%s: a.paux is not a complete, loadable file for %s' % (when, r))
             return v
 
+        def check_exact(when, name, rs_, expected):
+            """a saved file holds exactly the labels of the document that saved it"""
+            try:
+                with guarded():
+                    w = pickle.load(open(os.path.join(d, name + '.paux'), 'rb'))
+            except BaseException as e:
+                fails.append('%s: %s.paux does not load (%r)' % (when, name, e)); return
+            for r in rs_:
+                got = sorted(w[r]) if isinstance(w, dict) and isinstance(w.get(r), dict) else None
+                if got != sorted(expected):
+                    fails.append('%s: %s.paux holds the labels %r for %s, the document defines %r' % (when, name, got, r, sorted(expected)))
+
         def check_refs(when, r, v):
             e = run_document(d, B + '.tex', r, -100)
             if e is not None:
                 fails.append('%s: processing b.tex under %s failed: %r' % (when, r, e)); return
+            check_exact(when, B, [r], [OWN])
             if v is None:
                 return
             ext = 'index.html'
@@ -1037,6 +1225,7 @@ def doc_scenario(sc):
             if e is not None:
                 fails.append('first run of a.tex under %s failed: %r' % (r, e))
         v = check_complete('after the first runs', rs)
+        check_exact('after the first runs', A, rs, labs)
         if fails:
             return fails
         check_refs('intact file', rs[0], v)
@@ -1079,7 +1268,10 @@ def gen_doc_scenario(rng):
     arg = rng.random() if kind == 'trunc' else rng.randrange(1 << 30)
     # document names, including pairs in a prefix/suffix relation (the own .paux is told apart from the others by name)
     names = rng.choice([['a', 'b'], ['a', 'b'], ['part-intro', 'intro'], ['intro', 'part-intro'], ['xa', 'a'], ['doc', 'doc2'], ['b.c', 'c']])
-    return {'labels': labels, 'renderers': rs, 'damage': [kind, arg], 'names': names, 'seed': rng.randrange(1 << 30)}
+    xr = rng.random() < 0.4
+    if xr:
+        rs = rs[:1]            # xr reads the sections of all renderers (known finding xr-mixes-renderers)
+    return {'labels': labels, 'renderers': rs, 'damage': [kind, arg], 'names': names, 'xr': xr, 'seed': rng.randrange(1 << 30)}
 
 
 def extra_checks(ctx):
@@ -1089,6 +1281,8 @@ def extra_checks(ctx):
         sc = gen_doc_scenario(ctx.rng)
         if i == 0:
             sc['names'] = ['part-intro', 'intro']     # always: the referring document's name is a suffix of the saved one's
+        if i == 1:
+            sc['xr'], sc['renderers'], sc['damage'] = True, sc['renderers'][:1], ['flip', sc['damage'][1] if isinstance(sc['damage'][1], int) else 7]
         fails = doc_scenario(sc)
         ctx.count('doc-damage:' + sc['damage'][0])
         nontriv += 1
